@@ -93,6 +93,19 @@ void harness(void)
   if (verif_rv == -ETIMEDOUT) V_CANARY("api.timeout_reachable");
   if (verif_rv == -EINVAL) V_CANARY("api.einval_reachable");
   if (g.nsig > 1 && gc.plan_on) V_CANARY("api.two_signals_reachable");
+#elif defined(API_new)
+  (free)(process);
+  process = NULL;
+  {
+#include "gen/pre_reproc_new.inc"
+    reproc_t *verif_rv = reproc_new();
+#include "gen/post_reproc_new.inc"
+    if (verif_rv != NULL) V_CANARY("api.new_handle_reachable"); else V_CANARY("api.new_failure_reachable");
+    /* a new handle can be destroyed at once: nothing to stop, nothing to close */
+    int os0 = g.e.os_calls;
+    reproc_t *z = reproc_destroy(verif_rv);
+    V_ASSERT("C14+C15/reproc_new.destroy_of_new_handle_touches_nothing", z == NULL && g.e.os_calls == os0);
+  }
 #elif defined(API_destroy)
   if (process != NULL && process->status == ST_IN_PROGRESS) {
     plan_from(process->stop, process->deadline);
